@@ -44,7 +44,7 @@ func GenPlan(family string, seed uint64) *Plan {
 	bigThresholdConfig(p, seed)
 	if r := NewRng(seed, "inlock/"+family); !p.Sched.Free && len(p.Insts) > 0 && p.Sched.InLock == 0 && p.Sched.YieldProb > 0 {
 		switch family {
-		case "faultfree", "mixed", "c08", "c05ack", "c07rounds", "c13", "ctxcancel", "stoprestart":
+		case "faultfree", "mixed", "c08", "c05ack", "c07rounds", "c13", "ctxcancel", "stoprestart", "c12":
 			share := 1.0 / 8
 			if family == "c08" {
 				share = 1.0 / 3 // coinciding demotion causes are where a lock-free reader meets a half-made transition
